@@ -292,15 +292,34 @@ func (h *hist) quiescentMonitors() {
 				got := append([]int{}, d.TrackIdx...)
 				sort.Ints(got)
 				okSel := false
+				limitBad := ""
 				var want []int
 				for _, req := range cands {
 					w, lim := specSelect(req, kinds)
 					w2 := append([]int{}, w...)
 					sort.Ints(w2)
-					if len(w) > 0 && fmt.Sprint(got) == fmt.Sprint(w2) && (len(d.LimitSid) == 0 || d.LimitSid[0] == lim) {
-						okSel = true
+					if len(w) > 0 && fmt.Sprint(got) == fmt.Sprint(w2) {
+						// C04: every down track's limitSid is requestedTracks' second
+						// result for the request in force (video-low and not video,
+						// fewer than two video tracks)
+						h.check("C04.limit_follows_request")
+						limOk := true
+						for _, l := range d.LimitSid {
+							if l != lim {
+								limOk = false
+							}
+						}
+						if limOk {
+							okSel = true
+						} else {
+							limitBad = fmt.Sprintf("client %d, stream %d (kinds %v), request %v served: down tracks %v have limitSid %v, requestedTracks says %v",
+								m.h, u.id, kinds, req, got, d.LimitSid, lim)
+						}
 					}
 					want = w2
+				}
+				if !okSel && limitBad != "" {
+					h.failProp("C04", "limit_follows_request", limitBad)
 				}
 				if !okSel {
 					h.fail("offered_iff_requested", fmt.Sprintf("client %d holds stream %d (kinds %v) with tracks %v limitSid %v; its request %v selects %v", m.h, u.id, kinds, got, d.LimitSid, cands, want))
